@@ -16,9 +16,12 @@ def main():
     sh("git -C /repo worktree remove --force %s" % WT)
     rc, out = sh("git -C /repo worktree add --detach %s HEAD" % WT)
     assert rc == 0, out
-    sh("cd /verif/checker && go build -o ../bin/fpcheck .")
     BIN = "/tmp/fpcheck.sweep.%d" % os.getpid()
-    shutil.copy("/verif/bin/fpcheck", BIN)
+    if os.environ.get("FPSWEEP_BIN"):
+        shutil.copy(os.environ["FPSWEEP_BIN"], BIN)  # a frozen binary: the source may be mid-edit
+    else:
+        sh("cd /verif/checker && go build -o ../bin/fpcheck .")
+        shutil.copy("/verif/bin/fpcheck", BIN)
     total = 0
     try:
         for d in sorted(glob.glob(os.path.join(src, "*.diff"))):
